@@ -244,9 +244,9 @@ def post_bindown(token, args, kwargs, result):
 
 
 def _rt(arr):
-    """relative tolerance of a conservation contract: 1e-9 in double, 1e-4 for single-precision data (sums of up to ~1e3
-    samples carried in float32; real defects are O(1))"""
-    return 1e-4 if getattr(arr, 'dtype', None) in (np.dtype('float32'), np.dtype('float16')) else 1e-9
+    """relative tolerance of a conservation contract: 1e-9 in double, 1e-3 for single-precision data (sums of blocks of up to
+    3^5 samples carried in float32: measured 1.0e-6; real defects are O(1))"""
+    return 1e-3 if getattr(arr, 'dtype', None) in (np.dtype('float32'), np.dtype('float16')) else 1e-9
 
 
 def mode_class(mode):
@@ -899,9 +899,9 @@ def expose_history(ctx, hi):
 
 
 def expose_workload(ctx):
-    reps = ctx.pick(4, 800)
+    reps = ctx.pick(4, 2000)
     kk = -1
-    for rep in range(ctx.pick(4, 1000)):
+    for rep in range(ctx.pick(4, 2500)):
         for bits in range(1, 33):
             kk += 1
             if ctx.mine(kk):
@@ -916,7 +916,7 @@ def expose_workload(ctx):
                 if not ctx.mine(k):
                     continue
                 expose_case(ctx, bits, cls, rep)
-    nh = ctx.pick(8, 2400)
+    nh = ctx.pick(8, 6000)
     for h in range(nh):
         if ctx.mine(h):
             expose_history(ctx, h)
@@ -926,6 +926,7 @@ def expose_workload(ctx):
 
 
 # ------------------------------------------------------------------------------------------ binning workload
+LOW_BIN = 1e-3        # float32 data or config.precision = 32: measured round-off of block sums of 3^5 float32 samples 1.0e-6
 BIN_DTYPES = ['float64', 'float32', 'int64', 'int32', 'int16', 'int8', 'uint8', 'uint16', 'uint32', 'bool']
 
 
@@ -961,7 +962,7 @@ def bin_workload(ctx):
         idx = rs.permutation(len(cases))[:500]
         small = [c for c in cases if len(c[0]) <= 2]
         cases = small + [cases[i] for i in sorted(idx)]
-    for _ in range(ctx.pick(100, 100000)):
+    for _ in range(ctx.pick(100, 250000)):
         nd = int(rs.integers(1, 6))
         top = ctx.pick(6, 9) if nd < 4 else 4
         cases.append((tuple(int(v) for v in rs.integers(1, ctx.pick(6, 12) if nd < 3 else 6, nd)), tuple(int(v) for v in rs.integers(1, top, nd))))
@@ -1014,14 +1015,14 @@ def bin_workload(ctx):
                 ctx.observe('bindown.integer-containers')
             if prec == 32:      # single-precision configuration: the total need only be conserved to float32 round-off
                 ctx.close('bindown.block-sum', np.asarray(bs, dtype=float), want, key('C16/bindown/sum/block-sum'),
-                          'bindown(sum) is not the sum over each block', desc, rtol=1e-4, result_dtype=str(np.asarray(bs).dtype))
+                          'bindown(sum) is not the sum over each block', desc, rtol=LOW_BIN, result_dtype=str(np.asarray(bs).dtype))
             else:
                 ctx.equal('bindown.block-sum', np.asarray(bs, dtype=float), want, key('C16/bindown/sum/block-sum'),
                           'bindown(sum) is not the sum over each block', desc, result_dtype=str(np.asarray(bs).dtype))
             for m in modes[1:][k % 3:k % 3 + 1]:
                 ba = detector.bindown(x, farg, m)
                 ctx.close('bindown.block-sum', np.asarray(ba, dtype=float), want / nblk, key('C16/bindown/avg/block-mean'),
-                          'bindown(avg) is not the mean over each block', desc, rtol=1e-4 if prec == 32 else 1e-6 if dt == 'float32' else 1e-12,
+                          'bindown(avg) is not the mean over each block', desc, rtol=LOW_BIN if lowp else 1e-12,
                           atol=1e-9)
             ctx.require('bindown.input-untouched', np.array_equal(x, x0), 'C16/bindown/input-mutated', 'bindown modified the array it was given', desc)
             y0 = np.array(y, copy=True)
@@ -1031,7 +1032,7 @@ def bin_workload(ctx):
                       'tile(avg) is not each sample repeated factor times', desc)
             ts = detector.tile(y, farg, 'sum')
             ctx.close('tile.reference', np.asarray(ts, dtype=float), ref.tile_ref(yf, f) / nblk, key('C16/tile/sum/not-repeat-over-count', ysfx),
-                      'tile(sum) is not repeat/prod(factor)', desc, rtol=1e-4 if prec == 32 else 1e-6 if ydt == 'float32' else 1e-12)
+                      'tile(sum) is not repeat/prod(factor)', desc, rtol=LOW_BIN if lowp else 1e-12)
             ctx.require('tile.input-untouched', np.array_equal(y, y0), 'C16/tile/input-mutated', 'tile modified the array it was given', desc)
             # the two adjoint pairs (in double: x as handed in for the sum pair when it is an integer container)
             xf = x.astype(float)
@@ -1039,14 +1040,14 @@ def bin_workload(ctx):
             l1, r1 = float((detector.bindown(xf, farg, 'avg') * yf).sum()), float((xf * ts_f).sum())
             l2, r2 = float((np.asarray(detector.bindown(x if kind != 'f' else xf, farg, 'sum'), dtype=float) * yf).sum()), float((xf * ta_f).sum())
             sc = float(np.abs(xf).sum() * np.abs(yf).max()) or 1.0
-            at = 1e-4 if prec == 32 else 1e-5 if lowp else 1e-10
+            at = LOW_BIN if lowp else 1e-10
             ctx.require('adjoint.pairs', abs(l1 - r1) <= at * sc, 'C16/adjoint/bindown-avg~tile-sum', '<bindown_avg(x), y> != <x, tile_sum(y)>', desc, lhs=l1, rhs=r1)
             ctx.require('adjoint.pairs', abs(l2 - r2) <= at * sc, key('C16/adjoint/bindown-sum~tile-avg'), '<bindown_sum(x), y> != <x, tile_avg(y)>', desc, lhs=l2, rhs=r2)
             # tiling then binning returns the array
             ctx.close('tile.roundtrip', np.asarray(detector.bindown(ta, farg, 'avg'), dtype=float), yf, key('C16/tile/bindown(tile)!=identity/avg', ysfx),
-                      'bindown_avg(tile_avg(y)) != y', desc, rtol=1e-4 if prec == 32 else 1e-6 if ydt == 'float32' else 1e-12)
+                      'bindown_avg(tile_avg(y)) != y', desc, rtol=LOW_BIN if lowp else 1e-12)
             ctx.close('tile.roundtrip', np.asarray(detector.bindown(ts, farg, 'sum'), dtype=float), yf, 'C16/tile/bindown(tile)!=identity/sum',
-                      'bindown_sum(tile_sum(y)) != y', desc, rtol=1e-4 if prec == 32 else 1e-6 if ydt == 'float32' else 1e-12)
+                      'bindown_sum(tile_sum(y)) != y', desc, rtol=LOW_BIN if lowp else 1e-12)
             if y.dtype.kind != 'f' and nblk > 1:
                 # the other order on a narrow container: bin the repeated frame by summing (block sums leave the container)
                 ctx.observe('bindown.integer-containers')
@@ -1063,7 +1064,7 @@ def expose_bin_workload(ctx):
         for level in ('saturating', 'mid'):
             for factor in (2, 4, 8, (2, 4), 'stack'):
                 combos.append((bits, level, factor))
-    reps = ctx.pick(1, 160)
+    reps = ctx.pick(1, 400)
     k = -1
     for rep in range(reps):
         for bits, level, factor in combos:
@@ -1111,7 +1112,7 @@ def bayer_workload(ctx):
     from prysm import bayer
     shapes = [(2, 2), (2, 4), (4, 2), (4, 4), (4, 6), (6, 4), (6, 6), (8, 8), (6, 10), (12, 8), (16, 16), (32, 32), (10, 32)]
     rs = np.random.default_rng([ctx.seed, 16160])
-    for i in range(ctx.pick(60, 16000)):
+    for i in range(ctx.pick(60, 40000)):
         top = 17 if i < 700 else 65
         shapes.append((2 * int(rs.integers(1, top)), 2 * int(rs.integers(1, top))))
     k = -1
@@ -1171,7 +1172,7 @@ def bayer_workload(ctx):
                     flat = bayer.demosaic_malvar(np.full(shape, 7.0, dtype=dt), cfa)
                     ctx.close('bayer.malvar-flat-field', flat, np.full(shape + (3,), 7.0), f'C16/bayer/malvar/{cfa}/flat-field-not-preserved',
                               'demosaic_malvar of a constant mosaic is not constant (kernels not normalised)', desc,
-                              rtol=1e-5 if dt == 'float32' else 1e-12)
+                              rtol=1e-4 if dt == 'float32' else 1e-12)
                 bayer.demosaic_deinterlace(m, cfa)
                 ctx.require('bayer.input-untouched', np.array_equal(m, m0), f'C16/bayer/{cfa}/input-mutated', 'a Bayer routine modified the mosaic it was given', desc)
                 if dt != 'float64':
